@@ -95,6 +95,14 @@ def min_len(pc, seq: T) -> int:
     for c, pol in _atoms(pc):
         if c == LEN and pol:
             best = max(best, 1)         # `if len(seq):`
+        if pol and c.op == "slice" and len(c.a) == 3 and c.a[0] == seq:
+            # `if seq[k:]:` - the rest after k elements is not empty; `if seq[:k]:` (k != 0) - there is a first element
+            lo, hi = c.a[1], c.a[2]
+            lo_n = 0 if lo == sym.NONE else lo.a[0] if lo.op == "const" and isinstance(lo.a[0], int) else None
+            if lo_n is not None and lo_n >= 0 and hi == sym.NONE:
+                best = max(best, lo_n + 1)
+            elif lo_n == 0 and hi.op == "const" and isinstance(hi.a[0], int) and hi.a[0] != 0:
+                best = max(best, 1)
         if c.op != "cmp":
             continue
         op, l, r = c.a
